@@ -32,12 +32,29 @@ type c20Params struct {
 	FirstOp string `json:"first_op"`           // read | write
 	Buf     int    `json:"buf"`                // size of the application's read buffer
 	Payload int    `json:"payload"`
+	// RType (raw): content type of the first record (0 = 22 handshake; also 21 alert, 23 application data, 20)
+	RType int `json:"rtype,omitempty"`
+	// Concurrent: the application's first Write and first Read are issued by two tasks at the same time
+	Concurrent bool `json:"concurrent,omitempty"`
+}
+
+// c20RawBytes is what a raw client sends: one record of the given type and version (cut to SendLen bytes).
+func c20RawBytes(p *c20Params) []byte {
+	switch p.RType {
+	case 21:
+		return []byte{21, byte(p.Major), byte(p.Minor), 0, 2, 2, 40, 0, 0, 0, 0, 0} // fatal handshake_failure
+	case 23:
+		return []byte{23, byte(p.Major), byte(p.Minor), 0, 4, 1, 2, 3, 4, 0, 0, 0}
+	case 20:
+		return []byte{20, byte(p.Major), byte(p.Minor), 0, 1, 1, 0, 0, 0, 0, 0, 0}
+	}
+	return []byte{22, byte(p.Major), byte(p.Minor), 0, 7, 1, 0, 0, 3, 1, 1, 0}
 }
 
 func (c20) ID() string    { return "C20" }
 func (c20) Level() string { return "exploration" }
 func (c20) Rule() string {
-	return "each case: a connection accepted by pa.NewListener over a simulated listener, with TLCP-only / TLS-only / dual configuration, and one of three clients: the real tlcp client, the real crypto/tls client (TLS 1.2/1.3), or a raw writer that sends a record header with any major version byte 0..255 and stops after 0..12 bytes; transport segmentation whole / random / one byte per read (so the 5 peeked bytes arrive in every split); the server application's first operation is Read or Write, with read buffers from 1 byte (below the peeked header) upwards. Oracle: ProtectedConn() is *tlcp.Conn iff the major byte is 0x01 and *tls.Conn iff 0x03 (configuration error when that side is not configured), every other byte gives the unsupported-protocol error; handshake and echo through the adapter give the same negotiated state and bytes as against the stack directly; a client that disconnects early gives an error, never a hang or panic - also for the other operation tried after the first one failed; a raw client that sent a whole header and then went away gives the error the stack gives when it is fed the same bytes directly. distinct = distinct parameter vectors; non-trivial = the adapter reached its decision"
+	return "each case: a connection accepted by pa.NewListener over a simulated listener, with TLCP-only / TLS-only / dual configuration, and one of three clients: the real tlcp client, the real crypto/tls client (TLS 1.2/1.3), or a raw writer that sends a record (handshake, alert, application data or ChangeCipherSpec) with any major version byte 0..255 and stops after 0..12 bytes; with the real clients the application's first Write and first Read may come from two tasks at once; transport segmentation whole / random / one byte per read (so the 5 peeked bytes arrive in every split); the server application's first operation is Read or Write, with read buffers from 1 byte (below the peeked header) upwards. Oracle: ProtectedConn() is *tlcp.Conn iff the major byte is 0x01 and *tls.Conn iff 0x03 (configuration error when that side is not configured), every other byte gives the unsupported-protocol error; handshake and echo through the adapter give the same negotiated state and bytes as against the stack directly; a client that disconnects early gives an error, never a hang or panic - also for the other operation tried after the first one failed; a raw client that sent a whole header and then went away gives the error the stack gives when it is fed the same bytes directly. distinct = distinct parameter vectors; non-trivial = the adapter reached its decision"
 }
 func (c20) Components() (real, stub []string) {
 	return []string{"pa.listener, ProtocolSwitchServerConn, ProtocolDetectConn (instrumented)", "tlcp client+server (instrumented)", "crypto/tls client+server (real standard library code, one task per connection)"},
@@ -69,6 +86,13 @@ func drawC20(src *vs.Src) *c20Params {
 		}
 		p.Minor = src.Intn(256)
 		p.SendLen = src.Intn(13)
+		if src.Bool(1, 3) {
+			p.RType = pickInt(src, []int{21, 23, 20})
+		}
+	} else if p.Client == "tlcp" {
+		// only with the TLCP stack behind the adapter: crypto/tls is real, uninstrumented code whose internal
+		// mutexes the kernel cannot schedule around
+		p.Concurrent = src.Bool(1, 2)
 	}
 	return p
 }
@@ -148,9 +172,20 @@ func (c20) Run(c *Case, src *vs.Src) *Result {
 		}
 		secondDone = true
 	}
+	writerDone := !p.Concurrent
+	var writerErr error
+	if p.Concurrent {
+		w.Go("server-writer", func() {
+			if _, err := sconn.Write(reply); err != nil {
+				srvErr, writerErr = err, err
+			}
+			writerDone = true
+		})
+	}
 	w.Go("server-app", func() {
 		defer sconn.Close()
-		if p.FirstOp == "write" {
+		defer vs.Block(func() bool { return writerDone }, vs.Now().Add(30*time.Second))
+		if p.FirstOp == "write" && !p.Concurrent {
 			// a server that speaks first (its first Write triggers detection and handshake)
 			if _, err := sconn.Write(reply); err != nil {
 				firstErr, srvErr = err, err
@@ -174,7 +209,7 @@ func (c20) Run(c *Case, src *vs.Src) *Result {
 				return
 			}
 		}
-		if p.FirstOp != "write" {
+		if p.FirstOp != "write" && !p.Concurrent {
 			if _, err := sconn.Write(reply); err != nil {
 				srvErr = err
 			}
@@ -205,7 +240,7 @@ func (c20) Run(c *Case, src *vs.Src) *Result {
 			st := tc.ConnectionState()
 			cliState = fmt.Sprintf("tls vers=%04x", st.Version)
 		case "raw":
-			hdr := []byte{22, byte(p.Major), byte(p.Minor), 0, 7, 1, 0, 0, 3, 1, 1, 0}
+			hdr := c20RawBytes(p)
 			if p.SendLen > 0 {
 				pipe.C.Write(hdr[:p.SendLen])
 			}
@@ -231,7 +266,7 @@ func (c20) Run(c *Case, src *vs.Src) *Result {
 		rp := simnet.NewPipe("client:2", "server:444")
 		rp.S.Seg, rp.C.Seg = p.Seg, p.Seg
 		w.Go("ref-client", func() {
-			hdr := []byte{22, byte(p.Major), byte(p.Minor), 0, 7, 1, 0, 0, 3, 1, 1, 0}
+			hdr := c20RawBytes(p)
 			rp.C.Write(hdr[:p.SendLen])
 			rp.C.SetReadDeadline(vs.Now().Add(2 * time.Second))
 			rp.C.Read(make([]byte, 64))
@@ -317,7 +352,9 @@ func (c20) Run(c *Case, src *vs.Src) *Result {
 			r.Violate("routing", "C20 unsupported-error", "major byte %d: first operation returned %v, expected the unsupported-protocol error", major, firstErr)
 		}
 	case "config":
-		if firstErr == nil || !strings.Contains(firstErr.Error(), "config not set") {
+		if p.Concurrent && writerErr != nil && strings.Contains(writerErr.Error(), "config not set") && firstErr != nil {
+			// the concurrent Write met the detection first and got the configuration error; the Read failed as well
+		} else if firstErr == nil || !strings.Contains(firstErr.Error(), "config not set") {
 			r.Violate("routing", "C20 config-error", "major byte %d with configuration %s: first operation returned %v, expected the configuration error", major, p.Config, firstErr)
 		}
 	case "short-header":
